@@ -1,10 +1,12 @@
 #!/bin/bash
-# sweep.sh <tier> <seed...> : run every registered check at several seeds without touching evidence; report anything not silent.
+# sweep.sh <tier> <seed...> : run every registered check (or $ONLY) at several seeds without touching evidence; report anything not silent.
+# Do not modify /repo while this runs (the checks rebuild from it).
 cd /verif
 tier=$1; shift
 ./build.sh plain >/dev/null || exit 2
 for seed in "$@"; do
-  for p in $(bin/vcheck list); do
+  for p in ${ONLY:-$(bin/vcheck list)}; do
+    case " ${SKIP:-} " in *" $p "*) continue;; esac
     out=$(VERIF_SEED=$seed VERIF_NO_EVIDENCE=1 ./run.sh $p $tier 2>&1); rc=$?
     if [ $rc -ne 0 ] || echo "$out" | grep -q "^VIOLATION\|HARNESS-ERROR\|inconclusive: "; then
       echo "### seed=$seed $p exit=$rc"; echo "$out" | grep -v "^    " | tail -8
